@@ -93,7 +93,7 @@ class C19(Check):
             cfg.pop("resize_max", None)
         return {"cfg": cfg, "world_seed": rng.u64(), "big": big, "state": rng.weighted([("clean", 6), ("journal", 2), ("orphan", 1)]),
                 "fault": rng.weighted([(None, 7), ("short_w", 1), ("enospc", 1), ("eio_w", 1)]), "fault_nth": rng.weighted([(rng.range(1, 12), 3), (rng.range(12, 60), 2)]),
-                "modes": ["raw", "qcow", "q2r", "rawa"], "scale": rng.choice([0.6, 1.0, 1.5])}
+                "modes": ["raw", "qcow", "q2r", "rawa"], "scale": rng.choice([0.6, 1.0, 1.5]), "full": rng.chance(0.12)}
 
     def execute(self, spec, wd):
         o = Outcome()
@@ -112,6 +112,15 @@ class C19(Check):
             o.trace = "rejected"
             return o
         img = w["img"]
+        if spec.get("full") and not spec["big"]:
+            # a full filesystem: the last blocks of the device hold file data, so an all-data image reaches the very end
+            from world import debugfs_script
+            filler = os.path.join(wd, "filler.host")
+            with open(filler, "wb") as f:
+                f.write(Rng(spec["world_seed"] ^ 0xF177).bytes(65536) * (cfg["size_kib"] // 64 + 1))
+            debugfs_script(img, ['write "%s" /filler.bin' % filler], wd, tag="fillup", rand_seed=12)
+            e2fsck(img, ["-fy"], wd, tag="settlefull", problems=False)
+            o.stats["probe.full_filesystem"] += 1
         import states
         if spec["state"] == "journal":
             states.add_pending_journal(rng, w, wd)
